@@ -9,5 +9,7 @@ int main(int argc, char** argv)
   FEAT::Runtime::ScopeGuard guard(argc, argv);
   std::vector<Target> tg;
   tg.push_back({"cg", [](Tape& t, Ctx& c) { target<G_CG, double, LocalBE>(t, c, {K_PCG, K_PCR, K_PMR, K_CHEB, K_PCGNR}, {4, 2, 2, 2, 2}, maxn()); }, 96, 2, 60000});
+  // thorough tier: same decoder, systems up to n = 120
+  tg.push_back({"cg_big", [](Tape& t, Ctx& c) { target<G_CG, double, LocalBE>(t, c, {K_PCG, K_PCR, K_PMR, K_CHEB, K_PCGNR}, {4, 2, 2, 2, 2}, 120); }, 96, 3, 120000});
   return main_impl(argc, argv, tg);
 }
